@@ -32,15 +32,15 @@ Lemma html_escape_one k c : html_escape k [c] = esc1 k c.
 Proof.
   unfold esc1.
   destruct (c =? AMP) eqn:E1.
-  { apply Z.eqb_eq in E1. subst c. destruct k as [a b [] [] e f]; reflexivity. }
+  { apply Z.eqb_eq in E1. subst c. destruct k as [a b [] [] e f g]; reflexivity. }
   destruct (c =? LT) eqn:E2.
-  { apply Z.eqb_eq in E2. subst c. destruct k as [a b [] [] e f]; reflexivity. }
+  { apply Z.eqb_eq in E2. subst c. destruct k as [a b [] [] e f g]; reflexivity. }
   destruct (c =? GT) eqn:E3.
-  { apply Z.eqb_eq in E3. subst c. destruct k as [a b [] [] e f]; reflexivity. }
+  { apply Z.eqb_eq in E3. subst c. destruct k as [a b [] [] e f g]; reflexivity. }
   destruct (c =? DQ) eqn:E4.
-  { apply Z.eqb_eq in E4. subst c. destruct k as [a b [] [] e f]; reflexivity. }
+  { apply Z.eqb_eq in E4. subst c. destruct k as [a b [] [] e f g]; reflexivity. }
   destruct (c =? SQ) eqn:E5.
-  { apply Z.eqb_eq in E5. subst c. destruct k as [a b [] [] e f]; reflexivity. }
+  { apply Z.eqb_eq in E5. subst c. destruct k as [a b [] [] e f g]; reflexivity. }
   assert (Hplain : forall ap : bool, (if ap then replace1 SQ e_apos
                                  (replace1 DQ e_quot (replace1 GT e_gt (replace1 LT e_lt (replace1 AMP e_amp [c]))))
                                else replace1 DQ e_quot (replace1 GT e_gt (replace1 LT e_lt (replace1 AMP e_amp [c]))))
@@ -58,7 +58,7 @@ Qed.
 
 Theorem html_escape_flat k v : html_escape k v = flat_map (esc1 k) v.
 Proof.
-  induction v as [|c r IH]; [destruct k as [a b [] [] e f]; reflexivity|].
+  induction v as [|c r IH]; [destruct k as [a b [] [] e f g]; reflexivity|].
   change (c :: r) with ([c] ++ r). rewrite html_escape_app, html_escape_one, IH. reflexivity.
 Qed.
 
